@@ -293,6 +293,9 @@ impl ForkServer {
         msg.push_str(&format!("EINTR {}\nNOINSECURE {}\nCHUNK {}\n", plan.eintr, u8::from(plan.no_insecure), plan.chunk));
         msg.push_str(&format!("SKEW_HEAP {}\nSKEW_MMAP {}\n", plan.skew_heap, plan.skew_mmap));
         msg.push_str(&format!("CLOCK {} {}\nPID {}\n", plan.clock_base, plan.clock_step_ns, plan.pid));
+        if !plan.stall.is_empty() {
+            msg.push_str(&format!("STALL {}\n", plan.stall.iter().map(ToString::to_string).collect::<Vec<_>>().join(",")));
+        }
         msg.push_str(&format!("LOG {}\nOUT {}\nERR {}\nCWD {}\n", log.display(), out.display(), err.display(), cwd.display()));
         for (k, v) in colour.env() {
             msg.push_str(&format!("ENV {k}={v}\n"));
@@ -431,6 +434,9 @@ pub fn launch_program(
     cmd.env("GRAMSIM_CLOCK", plan.clock_base.to_string());
     cmd.env("GRAMSIM_CLOCK_STEP", plan.clock_step_ns.to_string());
     cmd.env("GRAMSIM_PID", plan.pid.to_string());
+    if !plan.stall.is_empty() {
+        cmd.env("GRAMSIM_STALL", plan.stall.iter().map(ToString::to_string).collect::<Vec<_>>().join(","));
+    }
     let mem_cap = env.mem_cap;
     // SAFETY: only async-signal-safe calls (personality, prctl, setrlimit) between fork and exec.
     unsafe {
